@@ -111,8 +111,11 @@ class CachedPrograms(Slice):
             if a[1][0] != b[1][0] or view(a[2], names) != view(b[2], names):
                 findings.append(("violation", "fault state differs between cached and uncached run"))
         else:
-            if len(on) != len(off) or view(on[-2], names) != view(off[-2], names):
+            if view(on[-2], names) != view(off[-2], names):
                 findings.append(("violation", f"final registers/output/exit differ with cache on vs off (steps {len(on)} vs {len(off)})"))
+            elif len(on) != len(off):
+                # (the number of step() calls is not part of C03; the model says they are equal)
+                findings.append(("disagreement", f"number of steps differs with cache on vs off ({len(on)} vs {len(off)})"))
         cl = {"mode:" + case["mode"][:4]}
         if len(on) > 3:
             cl.add("ran")
